@@ -531,6 +531,26 @@ fn interpreted_ifdata_include_case(rng: &mut Rng, rec: &mut Recorder, scratch: &
                     w,
                 );
             } else {
+                // an A2ML text edited through the API is content of the model: merge_includes() resolves
+                // include directives, it does not bring back the text that was parsed
+                if rng.chance(1, 3) {
+                    let mut me = m.clone();
+                    let marker = "\n/* edited through the API */\n";
+                    if let Some(a) = &mut me.project.module[0].a2ml {
+                        a.a2ml_text.push_str(marker);
+                    }
+                    rec.bump("a2ml_text_edited_before_merge_includes");
+                    if guarded(|| me.merge_includes()).is_ok() {
+                        let kept = me.project.module[0].a2ml.as_ref().is_some_and(|a| a.a2ml_text.contains("edited through the API"));
+                        if !kept {
+                            rec.violation(
+                                "merge_includes() discards an edit of a2ml_text (the A2ML block has no include directive)",
+                                "the text parsed at load time is restored",
+                                w.clone(),
+                            );
+                        }
+                    }
+                }
                 let mut mm = m.clone();
                 if let Err((sig, detail)) = guarded(|| mm.merge_includes()) {
                     rec.violation(&sig, &detail, w);
